@@ -50,7 +50,9 @@ def mc_configs(tier):
                              MaxOps=2, MaxTicks=2, MaxCrash=1)),
         # closed / re-opened handles between submit and completion
         ("mc_close2", consts(Entries={2}, Kinds={"write", "read", "fsync"}, LatChoices={1}, CtlOps={"close", "open"},
-                             Modes={"rw", "ro", "wo"}, MaxOps=2, MaxTicks=1)),
+                             Modes={"rw", "ro", "wo", "ao"}, MaxOps=2, MaxTicks=1)),
+        # entries tagged alike (copies of an outstanding write under the same user_data), cancel by that user_data
+        ("mc_dup3", consts(Entries={4}, Kinds={"write", "cancel"}, LatChoices={1}, AllowDup=True, MaxOps=3, MaxTicks=1)),
         # shim writes between ring operations (effect at pop time), dropped rings
         ("mc_shimdrop2", consts(Entries={2}, Kinds={"write", "read", "cancel"}, LatChoices={1}, CtlOps={"shimw", "dropring"},
                                 MaxOps=2, MaxTicks=2)),
@@ -59,6 +61,8 @@ def mc_configs(tier):
         cfgs += [
             ("mc_ctl2", consts(Entries={2}, Kinds={"read", "write", "cancel"}, LatChoices={1}, CtlOps=set(ALL_CTL),
                                MaxOps=2, MaxTicks=2, MaxCrash=1)),
+            ("mc_dup3b", consts(Entries={2, 4}, Kinds={"write", "cancel"}, LatChoices={0, 1}, AllowDup=True, MaxOps=3, MaxTicks=2)),
+            ("mc_dup4", consts(Entries={4}, Kinds={"write", "cancel"}, LatChoices={1}, AllowDup=True, MaxOps=4, MaxTicks=1)),
             ("mc_core3", consts(Entries={2}, Kinds={"read", "write", "cancel"}, LatChoices={0, 1}, MaxOps=3, MaxTicks=2)),
             ("mc_fsync_crash3", consts(Entries={2}, Kinds={"write", "fsync", "cancel"}, LatChoices={0, 2},
                                        CtlOps={"crash"}, MaxOps=3, MaxTicks=2, MaxCrash=1)),
@@ -80,6 +84,14 @@ def gen_configs(tier):
                             GenLen=7 if q else 8), 1),
         ("gen_ctl", consts(Entries={1}, Kinds={"write", "fsync", "cancel"}, LatChoices={1}, CtlOps={"crash", "close", "dropring"},
                            BadFlags={False, True}, MaxOps=2, MaxTicks=2, MaxCrash=1, GenLen=6 if q else 7), 1),
+    ]
+    cfgs += [
+        # copies of an outstanding write under the same user_data, cancel by that user_data
+        ("gen_dup", consts(Entries={4}, Kinds={"write", "cancel"}, LatChoices={1}, AllowDup=True, MaxOps=4 if not q else 3,
+                           MaxTicks=1, GenLen=7), 1),
+        # handles re-opened read-only / append-only, ring reads and writes on them
+        ("gen_modes", consts(Entries={2}, Kinds={"write", "read"}, LatChoices={0}, CtlOps={"close", "open"},
+                             Modes={"ao", "ro"}, MaxOps=2, MaxTicks=1, GenLen=6 if q else 7), 0),
     ]
     if not q:
         cfgs += [
@@ -163,12 +175,13 @@ def count_lines(path):
 
 
 FEATURES = ["cancel_hit", "cancel_miss", "full_push", "late_pop", "partial_drain", "lat_wait", "crash_lost",
-            "exit_crash_lost", "ebadf", "einval"]
+            "exit_crash_lost", "ebadf", "einval", "dup_cancel", "dup_both_complete", "append_write"]
 
 
 def features_of(path, acc):
     """Vacuity bookkeeping on recorded executions of the real code (counts only, no verdict)."""
     ops, sub_at, now, vis, alive_ops, exited = {}, {}, 0, {}, set(), False
+    fmode, run_cqes = {}, []
     for line in open(path):
         e = json.loads(line)
         ev = e["ev"]
@@ -176,17 +189,29 @@ def features_of(path, acc):
             exited = True      # the host software returned by itself; its handles are parked outside the task
         if ev == "reset":
             ops, sub_at, now, vis, alive_ops, exited = {}, {}, 0, {}, set(), False
+            fmode, run_cqes = {}, []
         elif ev == "tick":
             now = e["now"]
         elif ev == "push":
-            ops[e["ud"]] = e
+            ops[e["ud"]] = dict(e, hmode=fmode.get(e["f"], "rw"))
             if not e["ok"]:
                 acc["full_push"] += 1
+        elif ev == "open":
+            fmode[e["f"]] = e.get("mode", "rw")
         elif ev == "submit" and e["ok"]:
-            for u, o in ops.items():
+            earlier = []
+            for u in sorted(ops):
+                o = ops[u]
                 if o["r"] == e["r"] and o["ok"] and u not in sub_at:
-                    sub_at[u] = now
-                    alive_ops.add(u)
+                    if o["kind"] == "cancel" and not o["bad"]:
+                        cands = [v for v in alive_ops if ops[v]["r"] == o["r"] and ops[v]["tag"] == o["tgt"]] + \
+                                [v for v in earlier if ops[v]["tag"] == o["tgt"]]
+                        if len(cands) >= 2:
+                            acc["dup_cancel"] += 1     # a cancel aimed at a user_data that >= 2 outstanding entries carry
+                    earlier.append(u)
+            for u in earlier:
+                sub_at[u] = now
+                alive_ops.add(u)
         elif ev == "sync":
             vis[e["r"]] = e["n"]
         elif ev == "cqe":
@@ -194,6 +219,12 @@ def features_of(path, acc):
             alive_ops.discard(u)
             vis[e["r"]] = vis.get(e["r"], 1) - 1
             o = ops.get(u)
+            if o and e["res"] >= 0 and o["kind"] == "write" and o.get("hmode") in ("ao", "wa", "ra"):
+                acc["append_write"] += 1       # a ring write completed on a handle opened with append
+            if o and o["tag"] != u and e["res"] >= 0 and any(
+                    c["ev"] == "cqe" and c["tag"] == e["tag"] and c["r"] == e["r"] and c["res"] >= 0 for c in run_cqes):
+                acc["dup_both_complete"] += 1  # two entries tagged alike both completed normally
+            run_cqes.append(e)
             if e["res"] == -125:
                 acc["cancel_hit"] += 1
             if e["res"] == -2:
@@ -248,7 +279,7 @@ def run(pid, tier, seed, replay=None):
             log(vlib.counterexample_text(r))
             raise MachineryError(f"design-level check {name} did not pass: the committed ImplSpec does not satisfy the "
                                  f"PropSpec ({r.violated or r.error or 'timeout'}); the spec must be repaired first")
-        need = ["NewRing"] + [{"read": "PushRead", "write": "PushWrite", "fsync": "PushFsync", "cancel": "PushCancel"}[k]
+        need = (["PushDup"] if c["AllowDup"] else []) + ["NewRing"] + [{"read": "PushRead", "write": "PushWrite", "fsync": "PushFsync", "cancel": "PushCancel"}[k]
                               for k in sorted(c["Kinds"])] + ["SubmitMC", "SyncMC", "PopSome", "PopNoneMC", "TickNow", "End"]
         for op, act in (("dropring", "DropRingMC"), ("close", "CloseMC"), ("open", "OpenMC"), ("shimw", "ShimWriteMC"),
                         ("crash", "CrashMC")):
@@ -261,7 +292,8 @@ def run(pid, tier, seed, replay=None):
     if tier == "thorough":
         # vacuity witnesses: each W_* invariant must be *violated* (the situation is reachable in the model)
         c = consts(Entries={1, 2}, LatChoices={0, 1}, CtlOps={"crash"}, MaxOps=2, MaxTicks=2, MaxCrash=1)
-        for wname in ["W_CancelInflight", "W_CancelMissing", "W_FullPush", "W_LateDrain", "W_CrashLoses"]:
+        c = dict(c, AllowDup=True, MaxOps=3, Entries={4})
+        for wname in ["W_DupCancel", "W_CancelInflight", "W_CancelMissing", "W_FullPush", "W_LateDrain", "W_CrashLoses"]:
             cfg = vlib.cfg_text("Spec", c, invariants=[wname], view="View")
             r = vlib.run_tlc(SUB, "Uring", cfg, f"{pid}_{wname}", workers=4, timeout=600, heap="6g")
             if r.violated != wname:
